@@ -1,260 +1,356 @@
 """C10 — malformed or unsupported requests never reach the application and never hang."""
-import re
+import re, operator
 from core import *  # noqa
 from roles import *  # noqa
-import roles, shared, symex
+import roles, shared, symex, inline, absint
+import queue_rules as Q
+import parser_rules as PR
 
 EXPLANATION = (
-    "Decision-table extraction and must-pass-through over the MIR of ClientConnection::{next,read}, parse_request_line, "
-    "parse_http_version, read_next_line and new_request: every ReadError variant is mapped to the status of DESIGN A.4 and "
-    "ends the connection without delivering; every Err of the head parsers propagates (no defaulting); the version gate "
-    "rejects exactly versions > 1.1, does not deliver, answers 505 through a writer that cannot deadlock (ownership "
-    "dataflow + mono effect graph) and flushes because the connection stays open; unsupported Expect is rejected before "
-    "any body byte is read.")
-TRUSTED = ["rustc MIR / trait resolution", "std effect table", "HTTPVersion ordering is lexicographic (checked under C05.2)"]
+    "Abstract path exploration of the connection parser (next() and the function it reads a request with, each with the helpers of its file and small "
+    "std combinators spliced in; nothing depends on how the code is split or spelled): which error value the head reader returns for each cause (request "
+    "line with a missing field / unrecognised version, header the header parser rejects, every error of new_request, end of stream, non-ASCII bytes, "
+    "timeout) and what next() does with that value: the status of DESIGN A.4 printed exactly once with the right version, nothing delivered, the "
+    "connection closed, I/O errors other than a timeout answered with nothing; a request line is only accepted with three fields and a recognised "
+    "version; the header parser only accepts a line in which it found a colon; the version gate rejects exactly versions > 1.1, does not deliver, answers "
+    "505 through a writer that cannot deadlock (ownership dataflow + mono effect graph) and flushes because the connection stays open; unsupported "
+    "Expect is rejected before any body byte is read.")
+TRUSTED = ["rustc MIR / trait resolution", "std effect table", "HTTPVersion ordering is lexicographic (checked under C05.2)",
+           "MIR of the small std combinators as shipped with the toolchain"]
 
-EXPECTED_STATUS = {"WrongRequestLine": {400}, "WrongHeader": {400}, "ExpectationFailed": {417}}
-DEFAULTING = r"::(unwrap_or|unwrap_or_else|unwrap_or_default|or|or_else|get_or_insert\w*)$"
+LINE_TY = r"^std::result::Result<(ascii::AsciiString|std::string::String|std::vec::Vec<u8>), std::io::Error>$"
+LINE = ("sym", "line")
+VER = ("sym", "version-of-the-request")
+DEAD = ("diverge", "resume", "terminate", "unreachable")
+
+
+def returns_type(f, x, needle):
+    """does the call term x produce a value whose type mentions `needle`? (declared return type of the callee when it is a
+    crate function, else the type of the destination of the call site)"""
+    g = f.facts.fns.get(x[1])
+    if g is not None and needle in g.locals[0]["ty"]:
+        return True
+    bb = x[3] if len(x) > 3 else None
+    if isinstance(bb, int) and 0 <= bb < f.n:
+        t = f.blocks[bb].get("inl_call") or f.term(bb)
+        if t.get("t") == "call" or "dest" in t:
+            return needle in f.local_ty(t["dest"]["l"])
+    return False
+
+
+def statuses_of(p):
+    out = []
+    for e in p.calls():
+        for a in e[3]:
+            for x in absint.walk_terms(absint.deep(p.state, a)):
+                if x and x[0] == "agg" and x[1] == STATUS:
+                    c = absint.const_of(list(x[3].values())[0]) if x[3] else None
+                    out.append(c)
+    return out
+
+
+def prints_of(p):
+    return [e for e in p.calls() if re.search(r"response::Response::<R>::raw_print$", e[2])]
+
+
+def version_arg(p, e):
+    """the HTTP version a raw_print answers with (3rd argument)"""
+    return absint.deep(p.state, e[3][2]) if len(e[3]) > 2 else None
+
+
+def io_error(kind):
+    return ("call", "std::io::Error::new", [("agg", "std::io::ErrorKind", kind, {}), ("const", "x", '"x"', None)], -1, "")
 
 
 def run(ctx):
     facts = ctx.facts
     roles.bind(facts)
-    f = cc_next = method(facts, T_ITER, CC, "next")
-    cc_read = roles.inherent(facts, CC, "read")
-    ctx.touch(f)
-    read_calls = set(f.call_blocks(lambda t: call_is(t, cc_read.id)))
-    ctx.require(len(read_calls) == 1, "C10: expected exactly one read() call in next()")
-    some_bbs = {bb for bb, i, s in f.assigns() if s["lhs"] == {"l": 0, "p": []} and s["rhs"]["rv"] == "agg"
-                and s["rhs"].get("adt") == "std::option::Option" and s["rhs"].get("variant") == "Some"}
-    ctx.require(some_bbs, "C10: next() has no `return Some(..)`")
-    statuses = shared.status_consts_in(f)
-    raw_prints = {bb: t for bb, t in f.calls() if call_matches(t, r"response::Response::<R>::raw_print$")}
+    PM = PR.pmodel(facts)
+    f, rd = PM.nxt, PM.rd
+    ctx.touch(f); ctx.touch(rd)
+    err = facts.adt(PM.err_adt)
+    where = "%s:%d" % (f.file, f.line)
 
-    # ---- C10.1 error classification
-    sw_bb = None
-    for bb in sorted(f.live_blocks()):
-        sw = switch_on_discr(f, bb)
-        if sw and sw[0].get("adt") == READERR and not f.blocks[bb]["cleanup"]:
-            o = f.origin_place(sw[0]["pl"])
-            if origin_has_call(o, r"ClientConnection::read$"):
-                sw_bb = bb
-                break
-    ctx.require(sw_bb is not None, "C10.1: the match on read()'s ReadError was not found")
-    rv, m, otherwise, rest = switch_on_discr(f, sw_bb)
-    variants = [v["name"] for v in facts.adt(READERR)["variants"]]
-    ctx.floor("C10.1 ReadError variants", len(variants), 4)
-    for v in variants:
-        tgt = m.get(v, otherwise if v in rest else None)
-        ctx.require(tgt is not None, "C10.1: variant %s has no arm" % v)
-        region = shared.arm_region(f, tgt)
-        reach = f.reach([tgt], unwind=False)
-        consts = {c for bb, c in statuses if bb in region}
-        closes = not (reach & (read_calls | some_bbs)) and any(r in reach for r in f.returns())
-        ctx.paths += 1
-        ctx.ob("C10.1", "%s|%s|closes" % (f.id, v), "a read error of kind %s ends the connection: nothing is delivered and no further request is read" % v,
-               closes, f.loc(tgt), None if closes else "arm reaches the success return or loops back to read()")
-        if v in EXPECTED_STATUS:
-            ok = consts == EXPECTED_STATUS[v]
-            ctx.ob("C10.1", "%s|%s|status" % (f.id, v), "%s is answered with %s" % (v, sorted(EXPECTED_STATUS[v])), ok, f.loc(tgt),
-                   None if ok else "status constants on this arm: %s" % sorted(consts, key=str))
-            rps = [bb for bb in raw_prints if bb in region]
-            ok = len(rps) == 1
-            ctx.ob("C10.1", "%s|%s|one-response" % (f.id, v), "exactly one synthetic response is printed on this arm", ok, f.loc(tgt))
-            if rps:
-                t = raw_prints[rps[0]]
-                vo = f.origin(t["args"][2])
-                if v == "WrongRequestLine":
-                    okv = vo[0] == "agg" and vo[1] == HV and [x[1] for x in vo[2]] == [1, 1]
-                    txt = "answered as HTTP/1.1 (the request's version is unknown)"
-                else:
-                    okv = any(x[0] == "downcast" and x[2] == v for x in origin_walk(vo))
-                    txt = "answered with the request's own version (payload of the error)"
-                ctx.ob("C10.1", "%s|%s|version" % (f.id, v), txt, okv, f.loc(rps[0]), None if okv else origin_str(vo))
-        else:
-            # ReadIoError: 408 iff kind() == TimedOut, otherwise silent close
-            found = False
-            for bb in sorted(region):
-                bs = bool_switch(f, bb)
-                if not bs:
-                    continue
-                o = f.origin(bs[0])
-                if o[0] != "call" or not re.search(r"ErrorKind as std::cmp::PartialEq>::eq$", o[1]):
-                    continue
-                cs = [shared.const_of_origin(f, a) for a in o[2]]
-                kinds = [shared.sym_const(c[1]) for c in cs if c and c[0] == "promoted"]
-                is_kind_call = any(origin_has_call(a, r"std::io::Error::kind$") for a in o[2])
-                if not is_kind_call or not kinds:
-                    continue
-                found = True
-                okk = kinds == [("variant", "std::io::ErrorKind", "TimedOut")]
-                ctx.ob("C10.1", "%s|ReadIoError|timeout-kind" % f.id, "the 408 arm is selected by io::ErrorKind::TimedOut", okk, f.loc(bb), None if okk else str(kinds))
-                t_reg, f_reg = shared.arm_region(f, bs[1]), shared.arm_region(f, bs[2])
-                ct = {c for b2, c in statuses if b2 in t_reg}
-                cf = {c for b2, c in statuses if b2 in f_reg}
-                ctx.ob("C10.1", "%s|ReadIoError|status" % f.id, "a timed-out read is answered with 408, any other I/O error with nothing",
-                       ct == {408} and not cf and not any(b2 in f_reg for b2 in raw_prints), f.loc(bb), "true-arm %s false-arm %s" % (sorted(ct), sorted(cf)))
-            ctx.ob("C10.1", "%s|ReadIoError|has-timeout-test" % f.id, "the I/O-error arm distinguishes the timeout", found, f.loc(tgt))
-
-    # ---- C10.2 errors of the head parsers propagate; nothing is defaulted
-    g = cc_read
-    ctx.touch(g)
-    rnl = roles.inherent(facts, CC, "read_next_line")
-    prl = facts.fn("client::parse_request_line")
-    phv = facts.fn("client::parse_http_version")
-    hdr_from_str = method(facts, T_FROMSTR, HEADER, "from_str")
-    conts = set(g.call_blocks(lambda t: call_is(t, rnl.id) or call_matches(t, r"Vec::<T>::push$|Vec::<T, A>::push$|new_request$")
-                              or call_matches(t, r"Sequential(Reader|Writer)Builder<.*> as std::iter::Iterator>::next$")))
-    req_cons = {bb for bb, i, s in g.assigns() if s["lhs"] == {"l": 0, "p": []} and s["rhs"]["rv"] == "agg" and s["rhs"].get("variant") == "Ok"}
-    targets = [("read_next_line", lambda t: call_is(t, rnl.id)), ("parse_request_line", lambda t: call_is(t, prl.id)),
-               ("Header::from_str", lambda t: call_is(t, hdr_from_str.id)), ("new_request", lambda t: call_matches(t, r"^request::new_request$"))]
-    for nm, pred in targets:
-        bbs = g.call_blocks(pred)
-        ctx.require(bbs, "C10.2: call to %s not found in read()" % nm)
-        for k, bb in enumerate(bbs):
-            ctx.call_sites += 1
-            rs = shared.result_switch(g, bb)
-            if not rs or "err" not in rs or rs["err"] is None:
-                ctx.ob("C10.2", "%s|%s|%d" % (g.id, nm, k), "the Err of %s is branched on and propagated" % nm, False, g.loc(bb),
-                       "result is not branched on: %s" % (rs,))
-                continue
-            reach = g.reach([rs["err"]], unwind=False)
-            ok = not (reach & (conts | req_cons)) and any(r in reach for r in g.returns())
-            region = shared.arm_region(g, rs["err"])
-            sets_err = any((g.term(b)["t"] == "call" and g.term(b).get("callee") == "std::ops::FromResidual::from_residual" and g.term(b)["dest"] == {"l": 0, "p": []})
-                           or any(s["s"] == "assign" and s["lhs"] == {"l": 0, "p": []} and s["rhs"].get("variant") == "Err" for s in g.stmts(b)) for b in region)
-            ctx.ob("C10.2", "%s|%s|%d" % (g.id, nm, k), "a failure of %s makes read() return Err without parsing further or building a Request" % nm,
-                   ok and sets_err, g.loc(bb), None if ok and sets_err else "err-edge reaches continuation/Ok construction or does not return Err")
-    # no defaulting combinator anywhere in the head parsers
-    heads = [g, prl, phv, rnl] + facts.find_fns(r"^client::parse_request_line::\{closure") + facts.find_fns(r"^client::ClientConnection::read(_next_line)?::\{closure") \
-        + facts.find_fns(r"^<common::Header as std::str::FromStr>::from_str") + facts.find_fns(r"^<common::HeaderField as std::str::FromStr>::from_str")
-    ndef = 0
-    for h in heads:
-        ctx.touch(h)
-        for bb, t in h.calls():
-            ctx.call_sites += 1
-            if call_matches(t, DEFAULTING):
-                ndef += 1
-                ctx.ob("C10.2", "%s|defaulting|%s" % (h.id, short(call_name(t))), "no parse failure of the request head is replaced by a default value", False, h.loc(bb))
-    ctx.ob("C10.2", "head-parsers|no-defaulting", "no parse failure of the request head is replaced by a default value (unwrap_or*, or*, ...)", ndef == 0, prl.file)
-    # parse_request_line: absent field => WrongRequestLine
-    wr = [(bb, s) for bb, i, s in prl.assigns() if s["rhs"]["rv"] == "agg" and s["rhs"].get("adt") == READERR and s["rhs"].get("variant") == "WrongRequestLine"]
-    ctx.ob("C10.2", "%s|yields-WrongRequestLine" % prl.id, "parse_request_line produces WrongRequestLine", bool(wr), "%s:%d" % (prl.file, prl.line))
-    for cl in facts.find_fns(r"^client::parse_request_line::\{closure"):
-        ups = [fl for fl in cl.locals[1:2]]
-        # every captured Option must be `?`-propagated (Try::branch) or matched on
-        caps = set()
-        for bb, i, s in cl.assigns():
-            for p, kind in rvalue_places(s["rhs"]):
-                if p["l"] == 1 and pl_fields(p) and kind == "move":
-                    caps.add((pl_fields(p)[0], s["lhs"]["l"]))
-        for name, l in sorted(caps):
-            if not cl.local_ty(l).startswith("std::option::Option<"):
-                continue
-            used = [u for u in cl.uses().get(l, []) if u[0] == "term" and u[2]["t"] == "call"]
-            ok = any(u[2].get("callee") == "std::ops::Try::branch" for u in used)
-            ctx.ob("C10.2", "%s|captured-%s-propagated" % (cl.id, name), "a missing request-line field (%s) makes the whole line invalid" % name, ok, "%s:%d" % (cl.file, cl.line))
-    # parse_http_version: any token outside the table is an error
-    tbl = shared.str_match_table(phv)
-    ctx.floor("C10.2 version literals", len(tbl), 2)
-    falses = {fb for _, tb, fb, cb in tbl}
-    cmp_blocks = {cb for _, tb, fb, cb in tbl}
-    defaults = [fb for fb in falses if fb not in cmp_blocks]
-    ctx.require(len(defaults) == 1, "C10.2: cannot identify the fallback arm of parse_http_version")
-    outs = shared.eval_from(phv, defaults[0])
-    ok = bool(outs) and all(st.read_key((0,))[0] == "agg" and st.read_key((0,))[2] == "Err" for p, st in outs)
-    ctx.ob("C10.2", "%s|fallback-is-error" % phv.id, "an unrecognised version token is an error", ok, phv.loc(defaults[0]))
-    # read_next_line: EOF and non-ASCII are errors (the Ok value is only built from from_ascii's Ok)
-    ctx.touch(rnl)
-    fa = rnl.call_blocks(lambda t: call_matches(t, r"ascii::AsciiString::from_ascii$"))
-    ok = bool(fa)
-    for b in fa:
-        ret = rnl.origin_place({"l": 0, "p": []})
-    ok_assigns = [(bb, s) for bb, i, s in rnl.assigns() if s["lhs"] == {"l": 0, "p": []} and s["rhs"].get("variant") == "Ok"]
-    ctx.ob("C10.2", "%s|ascii-checked" % rnl.id, "a line is returned only through AsciiString::from_ascii (non-ASCII bytes make the read fail)",
-           bool(fa) and not ok_assigns, "%s:%d" % (rnl.file, rnl.line))
-
-    # ---- C10.3 version gate
-    gate = None
-    for bb, t in f.calls():
-        if call_matches(t, r"<common::HTTPVersion as std::cmp::PartialOrd<\(u8, u8\)>>::(gt|ge|lt|le)$|<common::HTTPVersion as std::cmp::PartialOrd>::(gt|ge|lt|le)$"):
-            nt = t.get("target")
-            bs = bool_switch(f, nt) if nt is not None else None
-            if bs and any(c in {505} for b2, c in statuses if b2 in shared.arm_region(f, bs[1]) | shared.arm_region(f, bs[2])):
-                gate = (bb, t, bs)
-    ctx.ob("C10.3", "%s|version-gate-present" % f.id, "next() compares the request's version against the supported maximum", gate is not None, "%s:%d" % (f.file, f.line))
-    if gate:
-        bb, t, bs = gate
-        opname = t["name"]
-        a0, a1 = f.origin(t["args"][0]), f.origin(t["args"][1])
-        c1 = shared.const_of_origin(f, a1)
-        bound = shared.sym_const(c1[1]) if c1 and c1[0] == "promoted" else None
-        lhs_is_version = origin_has_call(a0, r"Request::http_version$")
-        t_505 = any(c == 505 for b2, c in statuses if b2 in shared.arm_region(f, bs[1]))
-        import operator
-        ops = {"gt": operator.gt, "ge": operator.ge, "lt": operator.lt, "le": operator.le}
-        samples = [(0, 9), (1, 0), (1, 1), (1, 2), (1, 255), (2, 0), (3, 0), (0, 0), (0, 255), (255, 255), (2, 1), (1, 9)]
-        ok = lhs_is_version and isinstance(bound, tuple) and len(bound) == 2
+    def verdict(x, label, want_status, want_version):
+        """what next() does with read() == Err(x)"""
+        ps = [p for p in PM.after_read(PR.Err_(x), on_call=absint.io_model) if p.end[0] not in DEAD]
+        ctx.paths += len(ps)
         bad = []
-        if ok:
-            for v in samples:
-                rejected = ops[opname](v, bound) == t_505
-                if rejected != (v > (1, 1)):
-                    bad.append(v)
-        ctx.ob("C10.3", "%s|version-gate-table" % f.id, "the gate rejects exactly the versions above 1.1 (truth table over representative versions)",
-               ok and not bad, f.loc(bb), None if ok and not bad else "op=%s bound=%s mismatching versions=%s" % (opname, bound, bad))
-        rej_tgt = bs[1] if t_505 else bs[2]
-        acc_tgt = bs[2] if t_505 else bs[1]
-        # cut the loop at the read() call: what the rejecting arm itself can reach
-        reach = f.reach([rej_tgt], blocked=read_calls, unwind=False)
-        not_delivered = not (reach & some_bbs)
-        loops = any(rc in f.reach([rej_tgt], unwind=False) for rc in read_calls)
-        ctx.ob("C10.3", "%s|rejected-not-delivered" % f.id, "a request with an unsupported version is not returned to the application", not_delivered, f.loc(rej_tgt))
-        ctx.ob("C10.3", "%s|connection-continues" % f.id, "after the 505 the parser goes on reading the connection", loops, f.loc(rej_tgt))
-        region = shared.arm_region(f, rej_tgt)
-        rps = [b2 for b2 in raw_prints if b2 in region]
-        ctx.ob("C10.3", "%s|505-printed" % f.id, "exactly one 505 response is printed on the rejecting arm", len(rps) == 1 and {c for b2, c in statuses if b2 in region} == {505}, f.loc(rej_tgt))
-        # C10.5 the connection stays open, so the 505 must be flushed before looping
-        flushes = {b2 for b2 in region if f.term(b2)["t"] == "call" and f.term(b2).get("callee") == "std::io::Write::flush"}
-        ok = bool(rps) and bool(flushes)
-        if ok:
-            after = [f.normal_target(rps[0])]
-            r2 = f.reach(after, blocked=flushes | {b for b in f.live_blocks() if f.blocks[b]["cleanup"]}, unwind=False)
-            ok = not (r2 & read_calls)
-        ctx.ob("C10.5", "%s|505-flushed" % f.id, "the 505 bytes are flushed before the parser waits for the next request (the connection is kept open, so nothing else would push them out)",
-               ok, f.loc(rej_tgt), None if ok else "no Write::flush between the 505 raw_print and the loop back to read()")
+        for p in ps:
+            if not (p.end[0] == "return" and p.ret() == ("none",)):
+                bad.append("does not end the connection: %s" % Q._ret_str(p))
+                continue
+            pr = prints_of(p)
+            st = [s for s in statuses_of(p)]
+            if want_status is None:
+                if pr:
+                    bad.append("answers with %s" % st)
+                continue
+            if len(pr) != 1 or set(st) != {want_status}:
+                bad.append("prints %d responses with status %s" % (len(pr), sorted(set(map(str, st)))))
+                continue
+            va = version_arg(p, pr[0])
+            if want_version == "1.1":
+                okv = PR.version_const(va) == (1, 1)
+            else:
+                # the version the head reader had parsed (not a constant)
+                okv = absint.contains(va, VER) or (PR.version_const(va) is None and not any(x and x[0] == "const" for x in absint.walk_terms(va)))
+            if not okv:
+                bad.append("answers with version %s" % symex.sym_str(va))
+        ok = bool(ps) and not bad
+        what = ("answered with nothing" if want_status is None else "answered with %s (%s)" % (want_status, "as HTTP/1.1" if want_version == "1.1" else "with the request's own version"))
+        ctx.ob("C10.1", "%s|%s" % (PM.cc_next.id, label), "%s: the connection ends, nothing is delivered, no further request is read, and the client is %s" % (label, what), ok, where,
+               None if ok else str(bad[:3]))
+
+    # ---- C10.1 (a) what read() returns for each cause ------------------------------------------------------------
+    causes = []          # (label, error term, status, version)
+    # header parser failure
+    hp = [bb for bb, t in rd.calls() if rd.local_ty(t["dest"]["l"]).startswith("std::result::Result<common::Header,") and not t["dest"]["p"]]
+    ctx.ob("C10.2", "%s|parses-headers" % PM.read_def, "the head reader hands every header line to the header parser", bool(hp), "%s:%d" % (rd.file, rd.line))
+    for k, bb in enumerate(hp):
+        t = rd.term(bb)
+        st = symex.Sym(rd)
+        st.write_key((rd.argc + 1000000,), ("unit",))
+        st.write_key(pl_key(t["dest"]), PR.Err_(("unit",)))
+        # the version parsed from the request line is whatever the function holds at this point: mark every HTTPVersion local
+        for i, l in enumerate(rd.locals):
+            if l["ty"] == HV:
+                st.write_key((i,), VER)
+        ps = [p for p in absint.explore(rd, t["target"], st) if p.end[0] not in DEAD]
+        bad = [Q._ret_str(p) for p in ps if not (p.end[0] == "return" and p.ret()[0] == "agg" and p.ret()[2] == "Err")]
+        ctx.ob("C10.2", "%s|header-error-propagates|%d" % (PM.read_def, k), "a header line the header parser rejects makes the head reader return an error (no request is built, the line is not skipped)",
+               bool(ps) and not bad, rd.loc(bb), None if not bad else str(bad[:3]))
+        for p in ps:
+            if p.end[0] == "return" and p.ret()[0] == "agg" and p.ret()[2] == "Err":
+                causes.append(("malformed header line", p.ret()[3]["0"], 400, "own"))
+    # new_request failures
+    nrc = [bb for bb, t in rd.calls() if call_matches(t, r"^request::new_request$")]
+    ctx.ob("C10.2", "%s|builds-request" % PM.read_def, "the head reader builds the request with new_request", len(nrc) == 1, "%s:%d" % (rd.file, rd.line))
+    for bb in nrc:
+        t = rd.term(bb)
+        ty = rd.local_ty(t["dest"]["l"])
+        mm = re.match(r"^std::result::Result<request::Request, ([\w:]+)>$", ty)
+        ctx.require(mm and mm.group(1) in facts.adts, "C10.1: error type of new_request")
+        for v in facts.adt(mm.group(1))["variants"]:
+            tys = [x["ty"] for x in v["fields"]]
+            kinds = ["TimedOut", "ConnectionAborted"] if tys == ["std::io::Error"] else [None]
+            for kind in kinds:
+                st = symex.Sym(rd)
+                payload = {v["fields"][0]["name"]: io_error(kind)} if kind else {x["name"]: ("sym", x["name"]) for x in v["fields"]}
+                st.write_key(pl_key(t["dest"]), PR.Err_(("agg", mm.group(1), v["name"], payload)))
+                for i, l in enumerate(rd.locals):
+                    if l["ty"] == HV:
+                        st.write_key((i,), VER)
+                ps = [p for p in absint.explore(rd, t["target"], st) if p.end[0] not in DEAD]
+                bad = [Q._ret_str(p) for p in ps if not (p.end[0] == "return" and p.ret()[0] == "agg" and p.ret()[2] == "Err")]
+                ctx.ob("C10.2", "%s|new_request-error-propagates|%s" % (PM.read_def, v["name"]), "an error of new_request makes the head reader return an error", bool(ps) and not bad, rd.loc(bb),
+                       None if not bad else str(bad[:3]))
+                for p in ps:
+                    if p.end[0] == "return" and p.ret()[0] == "agg" and p.ret()[2] == "Err":
+                        x = p.ret()[3]["0"]
+                        if kind == "TimedOut":
+                            causes.append(("read timeout while buffering the body", x, 408, "1.1"))
+                        elif kind:
+                            causes.append(("I/O error while buffering the body", x, None, None))
+                        elif re.search(r"expect", v["name"], re.I):
+                            causes.append(("unsupported Expect value", x, 417, "own"))
+                        else:
+                            causes.append(("%s reported by new_request" % v["name"], x, 400, "own"))
+    # the line reader: end of stream, non-ASCII, timeout
+    lines = [b for b in range(rd.n) if rd.blocks[b].get("inl_call") and re.match(LINE_TY, rd.local_ty(rd.blocks[b]["inl_call"]["dest"]["l"]))]
+    ctx.ob("C10.2", "%s|reads-lines" % PM.read_def, "the head reader obtains the head line by line from a line reader of its own", bool(lines), "%s:%d" % (rd.file, rd.line))
+    first = [b for b in lines if all(rd.dominates(b, x, unwind=False) for x in lines)]
+    for k, b in enumerate(lines):
+        ic = rd.blocks[b]["inl_call"]
+        for label, kind, status, ver in (("end of stream in the head", "ConnectionAborted", None, None), ("non-ASCII bytes in the head", "InvalidInput", None, None), ("read timeout in the head", "TimedOut", 408, "1.1")):
+            st = symex.Sym(rd)
+            st.write_key(pl_key(ic["dest"]), PR.Err_(io_error(kind)))
+            for i, l in enumerate(rd.locals):
+                if l["ty"] == HV:
+                    st.write_key((i,), VER)
+            ps = [p for p in absint.explore(rd, ic["target"], st) if p.end[0] not in DEAD]
+            bad = [Q._ret_str(p) for p in ps if not (p.end[0] == "return" and p.ret()[0] == "agg" and p.ret()[2] == "Err")]
+            ctx.ob("C10.2", "%s|line-error-propagates|%d|%s" % (PM.read_def, k, kind), "a failure of the line reader makes the head reader return an error", bool(ps) and not bad, rd.loc(b), None if not bad else str(bad[:3]))
+            if k == 0 or b in first:
+                for p in ps:
+                    if p.end[0] == "return" and p.ret()[0] == "agg" and p.ret()[2] == "Err":
+                        causes.append((label, p.ret()[3]["0"], status, ver))
+    # request line
+    if len(first) == 1:
+        b = first[0]
+        ic = rd.blocks[b]["inl_call"]
+        st = symex.Sym(rd)
+        st.write_key(pl_key(ic["dest"]), PR.Ok_(LINE))
+        others = set(lines) - {b}
+        ps = [p for p in absint.Explorer(rd, stop_blocks=others, max_paths=6000, max_visits=1).run(ic["target"], st) if p.end[0] not in DEAD]
+        ctx.paths += len(ps)
+        good = [p for p in ps if p.end[0] == "stop"]
+        bad_fields, bad_version = [], []
+        for p in good:
+            nexts = []
+            vers = []
+            for bb, c in p.conds:
+                if not c:
+                    continue
+                if c[0] == "variant" and c[2] in ("Some", "None"):
+                    calls = absint.calls_in(c[3])
+                    if calls and re.search(r"(Split\w*<.*> as std::iter::Iterator>::next|SplitWhitespace<.*> as std::iter::Iterator>::next|::split_once|::splitn)", calls[0][1] + " " + (calls[0][4] if len(calls[0]) > 4 else "")):
+                        if c[3][0] == "call" and re.search(r"Iterator>::next$", c[3][1]):
+                            nexts.append(c[2])
+                    if c[3][0] == "call" and returns_type(rd, c[3], HV):
+                        vers.append(c[2] in ("Some", "Ok"))
+                if c[0] == "variant" and c[2] in ("Ok", "Err"):
+                    calls = absint.calls_in(c[3])
+                    if c[3][0] == "call" and returns_type(rd, c[3], HV):
+                        vers.append(c[2] == "Ok")
+                if c[0] == "scalar" and isinstance(c[2], bool) and c[1][0] == "call" and re.search(r"PartialEq.*for str>::eq$|<str as std::cmp::PartialEq>::eq$|<impl std::cmp::PartialEq for str>::eq$", c[1][1]):
+                    lits = [PR.const_str(a) for a in c[1][2]]
+                    if any(isinstance(l, str) and l.startswith("HTTP/") for l in lits):
+                        vers.append(c[2])
+            if len(nexts) < 3 or nexts[:3] != ["Some"] * 3:
+                bad_fields.append(nexts)
+            if not any(vers):
+                bad_version.append(vers)
+        ctx.ob("C10.2", "%s|request-line-needs-three-fields" % PM.read_def, "a request line is only accepted when its first three space-separated fields are present", bool(good) and not bad_fields,
+               rd.loc(b), None if not bad_fields else "accepted with field presence %s" % bad_fields[:3])
+        ctx.ob("C10.2", "%s|request-line-needs-known-version" % PM.read_def, "a request line is only accepted when its version token was recognised", bool(good) and not bad_version,
+               rd.loc(b), None if not bad_version else "accepted although every version test failed: %s" % bad_version[:3])
+        errs = {}
+        for p in ps:
+            if p.end[0] == "return" and p.ret()[0] == "agg" and p.ret()[2] == "Err":
+                errs[repr(p.ret()[3]["0"])] = p.ret()[3]["0"]
+        odd = [Q._ret_str(p) for p in ps if p.end[0] == "return" and not (p.ret()[0] == "agg" and p.ret()[2] == "Err")]
+        ctx.ob("C10.2", "%s|request-line-error-is-error" % PM.read_def, "a rejected request line makes the head reader return an error", bool(errs) and not odd, rd.loc(b), None if not odd else str(odd[:2]))
+        for x in errs.values():
+            causes.append(("malformed request line", x, 400, "1.1"))
+    else:
+        ctx.ob("C10.2", "%s|request-line-first" % PM.read_def, "the request line is the first line read", False, "%s:%d" % (rd.file, rd.line))
+
+    # ---- C10.1 (b) what next() does with each of those values -------------------------------------------------------
+    seen = set()
+    for label, x, status, ver in causes:
+        k = (label, repr(x))
+        if k in seen:
+            continue
+        seen.add(k)
+        verdict(x, label, status, ver)
+    ctx.floor("C10.1 distinct error causes traced from the head reader into next()", len({l for l, _ in seen}), 6)
+    # every variant of the error type is handled in a closing way (also ones no cause above produces)
+    for v in err["variants"]:
+        tys = [x["ty"] for x in v["fields"]]
+        payload = {x["name"]: (io_error("ConnectionReset") if x["ty"] == "std::io::Error" else (VER if x["ty"] == HV else ("sym", x["name"]))) for x in v["fields"]}
+        ps = [p for p in PM.after_read(PR.Err_(("agg", PM.err_adt, v["name"], payload)), on_call=absint.io_model) if p.end[0] not in DEAD]
+        ok = bool(ps) and all(p.end[0] == "return" and p.ret() == ("none",) for p in ps)
+        ctx.ob("C10.1", "%s|%s|closes" % (PM.cc_next.id, v["name"]), "every kind of read error ends the connection: nothing is delivered and no further request is read", ok, where)
+
+    # ---- C10.2 the header parser only accepts a line in which it found the colon
+    header_parser_rule(ctx, "C10.2")
+
+    # ---- C10.3 / C10.5 version gate
+    paths = [p for p in PM.after_read(PR.Ok_(PR.RQ)) if p.end[0] not in DEAD]
+    pconds = []
+    has_gate = False
+    for p in paths:
+        cs = []
+        for bb, c in p.conds:
+            a = PR.atom_of_cond(c)
+            if a and a[0][0] == "version":
+                cs.append((a[0], a[1]))
+                if a[0][1] in ("gt", "ge", "lt", "le"):
+                    has_gate = True
+        pconds.append((p, cs))
+    ctx.ob("C10.3", "%s|version-gate-present" % PM.cc_next.id, "next() compares the request's version against the supported maximum", has_gate, where)
+    samples = [(0, 9), (1, 0), (1, 1), (1, 2), (1, 255), (2, 0), (3, 0), (0, 0), (0, 255), (255, 255), (2, 1), (1, 9)]
+    bad, bad_flush = [], []
+    for v in samples:
+        comp = [p for p, cs in pconds if all((PR.CMP[a[1]](a[2], v) if a[3] else PR.CMP[a[1]](v, a[2])) == val for a, val in cs)]
+        for p in comp:
+            delivered = p.end[0] == "return" and p.ret() == ("some", PR.RQ)
+            st = statuses_of(p)
+            pr = prints_of(p)
+            if v > (1, 1):
+                if delivered or not (p.end[0] == "stop" and p.end[2] == "read-again") or len(pr) != 1 or set(st) != {505}:
+                    bad.append((v, Q._ret_str(p), sorted(set(map(str, st)))))
+                else:
+                    evs = [e for e in p.calls()]
+                    i = evs.index(pr[0])
+                    if not any(e[6] == "std::io::Write::flush" or re.search(r"Write>::flush$", e[2]) for e in evs[i + 1:]):
+                        bad_flush.append(v)
+            else:
+                if not delivered or 505 in st:
+                    bad.append((v, Q._ret_str(p), sorted(set(map(str, st)))))
+        if not comp:
+            bad.append((v, "no path", []))
+    ctx.ob("C10.3", "%s|version-gate-table" % PM.cc_next.id, "exactly the versions above 1.1 are rejected: not returned to the application, answered with exactly one 505, and the parser goes on reading the connection; "
+           "every other version is delivered (truth table over representative versions)", not bad, where, None if not bad else str(bad[:3]))
+    ctx.ob("C10.5", "%s|505-flushed" % PM.cc_next.id, "the 505 bytes are flushed before the parser waits for the next request (the connection is kept open, so nothing else would push them out)",
+           has_gate and not bad_flush, where, None if not bad_flush else "no Write::flush after the 505 raw_print for versions %s" % bad_flush[:3])
 
     # ---- C10.4 never hangs
-    n = shared.own_deadlock_sites(ctx, "C10.4")
+    full = inline.inlined(facts, PM.cc_next.id, stop=lambda d: facts.fns[d].rec.get("local") and (not PM.same_file(d) or "{closure#" in d))
+    n = shared.own_deadlock_sites(ctx, "C10.4", fns=[full])
     ctx.floor("C10.4 turn-waiting call sites", n, 3)
 
-    # ---- C10.7 "earlier pipelined requests are still answered first": a rejection response is written through a
-    # writer drawn from the same chain (C01.6); the writer abandoned on new_request's error path must not release it early
+    # ---- C10.7 the writer abandoned on new_request's error path must not release its successor early
     shared.writer_drop_waits_turn(ctx, "C10.7")
 
     # ---- C10.6 Expect handling in new_request
+    expect_rule(ctx, "C10.6")
+    return {}
+
+
+def header_parser_rule(ctx, rule):
+    """`impl FromStr for Header`: Ok only on paths on which the separator was found"""
+    facts = ctx.facts
+    hp = method(facts, T_FROMSTR, HEADER, "from_str")
+    same = lambda d: facts.fns[d].rec.get("local") and facts.fns[d].file == hp.file and ("FromStr" not in d or d.startswith(hp.id + "::"))
+    g = inline.inlined(facts, hp.id, stop=lambda d: facts.fns[d].rec.get("local") and not same(d), extern_ok=Q.std_small)
+    ctx.touch(g)
+    ps = [p for p in absint.explore(g, 0, None, max_paths=3000) if p.end[0] == "return"]
+    ctx.paths += len(ps)
+    oks = [p for p in ps if p.ret()[0] == "agg" and p.ret()[2] == "Ok"]
+    bad = []
+    n_sep = 0
+    def from_colon_lookup(v):
+        """does the term contain the payload of a successful (`Some`) lookup whose scrutinee mentions the ':' separator?"""
+        for x in absint.walk_terms(v):
+            if x and x[0] == "payload" and x[2] == "Some":
+                if any(y and y[0] == "const" and (y[1] == 58 or (isinstance(y[1], str) and ":" in y[1]) or (isinstance(y[2], str) and y[2] in ("':'", "b':'"))) for y in absint.walk_terms(x[1])):
+                    return True
+        return False
+    for p in oks:
+        h = absint.deep(p.state, p.ret()[3]["0"])
+        parts = list(h[3].values()) if h[0] == "agg" and h[1] == HEADER else []
+        n_sep += len(parts)
+        if len(parts) < 2 or not all(from_colon_lookup(x) for x in parts):
+            bad.append([symex.sym_str(x)[:80] for x in parts])
+    ctx.ob(rule, "%s|colon-required" % hp.id, "the header parser accepts a line only when it found the colon (a line without one is an error, never a header with a defaulted name or value)",
+           bool(oks) and not bad, "%s:%d" % (hp.file, hp.line), None if not bad else "name / value of an accepted header that do not come from a successful split at the colon: %s" % bad[:3])
+    ctx.counts["%s separator lookups on accepting paths" % rule] = n_sep
+
+
+def expect_rule(ctx, rule):
+    facts = ctx.facts
     nr = facts.fn("request::new_request")
     ctx.touch(nr)
     exp = [(bb, t) for bb, t in nr.calls() if call_matches(t, r"eq_ignore_ascii_case$") and "100-continue" in arg_consts(nr, t)]
-    ctx.ob("C10.6", "%s|expect-literal" % nr.id, "Expect is compared case-insensitively with `100-continue`", len(exp) == 1, "%s:%d" % (nr.file, nr.line))
+    ctx.ob(rule, "%s|expect-literal" % nr.id, "Expect is compared case-insensitively with `100-continue`", len(exp) == 1, "%s:%d" % (nr.file, nr.line))
     errs = [bb for bb, i, s in nr.assigns() if s["rhs"]["rv"] == "agg" and s["rhs"].get("variant") == "ExpectationFailed"]
-    ctx.ob("C10.6", "%s|expectation-failed-produced" % nr.id, "an unsupported Expect yields ExpectationFailed", bool(errs), "%s:%d" % (nr.file, nr.line))
+    ctx.ob(rule, "%s|expectation-failed-produced" % nr.id, "an unsupported Expect yields ExpectationFailed", bool(errs), "%s:%d" % (nr.file, nr.line))
     reads = set(nr.call_blocks(lambda t: t.get("callee") in ("std::io::Read::read", "std::io::Read::read_exact", "std::io::Read::read_to_end")))
     if exp and errs:
         bb, t = exp[0]
         bs = bool_switch(nr, t["target"])
-        ctx.require(bs is not None, "C10.6: eq_ignore_ascii_case result is not branched on")
+        ctx.require(bs is not None, "%s: eq_ignore_ascii_case result is not branched on" % rule)
         f_reach = nr.reach([bs[2]], unwind=False)
-        ok = any(e in f_reach for e in errs) and not (nr.reach([bs[2]], blocked=set(errs), unwind=False) & {b for b in nr.live_blocks() if nr.term(b)["t"] == "return"}) 
-        ctx.ob("C10.6", "%s|other-value-rejected" % nr.id, "any Expect value other than 100-continue leads to the ExpectationFailed return", ok, nr.loc(bb))
-        # decision point: the innermost Option-discriminant switch dominating the comparison
+        ok = any(e in f_reach for e in errs) and not (nr.reach([bs[2]], blocked=set(errs), unwind=False) & {b for b in nr.live_blocks() if nr.term(b)["t"] == "return"})
+        ctx.ob(rule, "%s|other-value-rejected" % nr.id, "any Expect value other than 100-continue leads to the ExpectationFailed return", ok, nr.loc(bb))
         dom = nr.dominators(False)
         cands = [b for b in dom[bb] if switch_on_discr(nr, b) and switch_on_discr(nr, b)[0].get("adt") == "std::option::Option"]
-        ctx.require(cands, "C10.6: no Option match dominates the Expect comparison")
+        ctx.require(cands, "%s: no Option match dominates the Expect comparison" % rule)
         dec = max(cands, key=lambda b: len(dom[b]))
         before_body = all(nr.dominates(dec, r, unwind=False) for r in reads)
-        ctx.ob("C10.6", "%s|decided-before-body" % nr.id, "the expectation is decided before any body byte is read", before_body, nr.loc(dec))
+        ctx.ob(rule, "%s|decided-before-body" % nr.id, "the expectation is decided before any body byte is read", before_body, nr.loc(dec))
         for e in errs:
             r = nr.reach([e], unwind=False)
-            ctx.ob("C10.6", "%s|rejection-reads-nothing" % nr.id, "the rejection path reads no body byte", not (r & reads), nr.loc(e))
-    return {}
+            ctx.ob(rule, "%s|rejection-reads-nothing" % nr.id, "the rejection path reads no body byte", not (r & reads), nr.loc(e))
